@@ -119,6 +119,12 @@ class s_bytes(metaclass=_BytesMeta):
 class SByteArray:
     """model of bytearray over (symbolic) 8-bit ints"""
 
+    def __getattr__(self, k):
+        from .core import ModelGap
+
+        raise ModelGap("'SByteArray' proxy has no model of attribute '%s'" % k)
+
+
     def __init__(self, x=b""):
         self.v = list(x.v) if isinstance(x, (SBytes, SByteArray)) else list(x)
 
@@ -189,6 +195,12 @@ def s_isinstance(o, t):
 class SArray:
     """model of array.array('b'|'B'): list with range obligation"""
 
+    def __getattr__(self, k):
+        from .core import ModelGap
+
+        raise ModelGap("'SArray' proxy has no model of attribute '%s'" % k)
+
+
     RANGES = {"b": (-128, 127), "B": (0, 255)}
 
     def __init__(self, code, init=()):
@@ -231,6 +243,49 @@ class SArray:
 
     def tolist(self):
         return list(self.v)
+
+    def extend(self, xs):
+        for x in list(xs):
+            self.append(x)
+
+    def __iadd__(self, xs):
+        self.extend(xs)
+        return self
+
+    def __add__(self, o):
+        r = SArray(self.code, self.v)
+        r.extend(o)
+        return r
+
+    def __mul__(self, k):
+        return SArray(self.code, self.v * int(k))
+
+    def insert(self, i, x):
+        self.v.insert(i, self._chk(x))
+
+    def pop(self, i=-1):
+        return self.v.pop(i)
+
+    def reverse(self):
+        self.v.reverse()
+
+    def __contains__(self, x):
+        # (the caller's `in` turns the result into a bool: a symbolic comparison forks there)
+        return any(bool(v == x) for v in self.v)
+
+    def index(self, x, *a):
+        lo = a[0] if a else 0
+        hi = a[1] if len(a) > 1 else len(self.v)
+        for i in range(lo, hi):
+            if bool(self.v[i] == x):
+                return i
+        raise ValueError("array.index(x): x not in array")
+
+    def count(self, x):
+        tot = 0
+        for v in self.v:
+            tot = (v == x) + tot
+        return tot
 
     def __eq__(self, o):
         return isinstance(o, SArray) and self.v == o.v
